@@ -233,6 +233,77 @@ pub fn grow(args: &[String]) -> i32 {
     0
 }
 
+/// The file at `p` has just been recovered from a crash image (it opens and checks). One more commit is made on it; then
+/// the header page that commit wrote is torn at 8-byte words in every prefix / suffix combination of the words that
+/// changed (a second power loss during the header write). Every such image must open, check, and show the state before
+/// or after that commit. Returns "ok:<images>" or "FAIL:<what>".
+fn second_crash(p: &str, opts: &Opts, salt: usize) -> String {
+    let ps = opts.pagesize as usize;
+    let (d1, _) = match open_dump_parts(p, opts) {
+        Ok(x) => x,
+        Err(e) => return format!("FAIL:reopen:{}", e),
+    };
+    let img1 = std::fs::read(p).unwrap();
+    let r = match open_db(p, opts) {
+        Err(e) => Err(format!("open:{}", e)),
+        Ok(db) => match guarded(|| -> Result<(), jammdb::Error> {
+            let tx = db.tx(true)?;
+            let b = tx.get_or_create_bucket("zz-second-crash")?;
+            b.put(format!("k{}", salt % 3), format!("{}", salt))?;
+            tx.commit()
+        }) {
+            Ok(Ok(())) => Ok(()),
+            Ok(Err(e)) => Err(format!("commit:{}", err_name(&e))),
+            Err(pn) => Err(format!("commit:{}", pn)),
+        },
+    };
+    if let Err(e) = r {
+        return format!("FAIL:commit-after-recovery:{}", e);
+    }
+    let img2 = std::fs::read(p).unwrap();
+    let d2 = match open_dump_parts(p, opts) {
+        Ok((d, c)) if c == "check:ok" => d,
+        Ok((_, c)) => return format!("FAIL:after-commit:{}", c),
+        Err(e) => return format!("FAIL:after-commit:{}", e),
+    };
+    if img1.len() < 2 * ps || img2.len() < 2 * ps {
+        return "FAIL:short-file".into();
+    }
+    let changed: Vec<usize> = (0..2).filter(|s| img1[s * ps..(s + 1) * ps] != img2[s * ps..(s + 1) * ps]).collect();
+    if changed.len() != 1 {
+        return format!("FAIL:commit-wrote-{}-header-pages", changed.len());
+    }
+    let off = changed[0] * ps;
+    let words: Vec<usize> = (0..ps / 8).filter(|w| img1[off + 8 * w..off + 8 * w + 8] != img2[off + 8 * w..off + 8 * w + 8]).collect();
+    let mut n = 0;
+    for k in 0..=words.len() {
+        for suffix in [false, true] {
+            // the first k changed words persisted (or: all but the first k)
+            let mut img = img2.clone();
+            for (j, w) in words.iter().enumerate() {
+                let persisted = if suffix { j >= k } else { j < k };
+                if !persisted {
+                    img[off + 8 * w..off + 8 * w + 8].copy_from_slice(&img1[off + 8 * w..off + 8 * w + 8]);
+                }
+            }
+            std::fs::write(p, &img).unwrap();
+            n += 1;
+            match open_dump_parts(p, opts) {
+                Ok((d, c)) => {
+                    if c != "check:ok" {
+                        return format!("FAIL:torn-header-of-the-commit-after-recovery:words={}/{}{}:{}", k, words.len(), if suffix { "s" } else { "p" }, c);
+                    }
+                    if d != d1 && d != d2 {
+                        return format!("FAIL:torn-header-of-the-commit-after-recovery:words={}/{}{}:neither-state", k, words.len(), if suffix { "s" } else { "p" });
+                    }
+                }
+                Err(e) => return format!("FAIL:torn-header-of-the-commit-after-recovery:words={}/{}{}:{}", k, words.len(), if suffix { "s" } else { "p" }, e),
+            }
+        }
+    }
+    format!("ok:{}", n)
+}
+
 /// damage <image> <mutfile> <scratch> [opts]: for every mutation line "<abs_offset> <hexbytes>" copy the
 /// image, overwrite the bytes, open it with the library and print "<line no> <open result> <dump hash> <check>"
 pub fn damage(args: &[String]) -> i32 {
@@ -240,6 +311,16 @@ pub fn damage(args: &[String]) -> i32 {
     let muts = std::fs::read_to_string(&args[1]).unwrap();
     let scratch = &args[2];
     let opts = parse_opts(&args[3..]);
+    // --second <file>: line numbers (one per line) of the images on which the recovery is continued: one more commit,
+    // whose header write is then torn as well (a second crash right after the recovery from the first)
+    let second: std::collections::HashSet<usize> = match args.iter().position(|a| a == "--second") {
+        Some(k) if k + 1 < args.len() => std::fs::read_to_string(&args[k + 1])
+            .unwrap_or_default()
+            .lines()
+            .filter_map(|l| l.trim().parse().ok())
+            .collect(),
+        _ => Default::default(),
+    };
     for (i, line) in muts.lines().enumerate() {
         let w: Vec<&str> = line.split_whitespace().collect();
         if w.len() < 2 {
@@ -259,10 +340,13 @@ pub fn damage(args: &[String]) -> i32 {
             img[off..off + bytes.len()].copy_from_slice(&bytes);
         }
         std::fs::write(scratch, &img).unwrap();
-        let line = match open_dump_parts(scratch, &opts) {
+        let mut line = match open_dump_parts(scratch, &opts) {
             Ok((d, c)) => format!("{} ok {:016x} {}", i, crate::run::fnv64(d.as_bytes()), c),
             Err(e) => format!("{} {}", i, e.replace(' ', "_")),
         };
+        if second.contains(&i) && line.contains(" ok ") && line.ends_with("check:ok") {
+            line.push_str(&format!(" second:{}", second_crash(scratch, &opts, i).replace(' ', "_")));
+        }
         println!("{}", line);
     }
     let _ = std::fs::remove_file(scratch);
